@@ -217,6 +217,8 @@ def run_job(job):
     profile = None
     if prop == "C02" and rng.random() < 0.7:
         profile = [1, 2, 1, 4, 2, 1]
+    if prop == "C20":
+        profile = [8, 1, 1, 0, 0, 0]      # several threads waiting on one signal, rarely a go()
     items = []
     for _ in range(job["scenarios"]):
         sc = m1.gen_scenario(rng, profile=profile)
